@@ -15,6 +15,8 @@ def _leaves(e):
         t = norm(expr)
         if t in ("os.cpu_count() or 1",):
             return "OS"
+        if t == "os.cpu_count()":
+            return "OS-without-None-guard"
         if isinstance(expr, ast.Call) and isinstance(expr.func, ast.Name):
             qs = e.callees_of(expr)
             if qs == {f"{CX}:_cpu_count_affinity"}:
